@@ -99,6 +99,7 @@ def run_case(job):
             finally:
                 sys.path.remove(decoy2)
             out["warm_log"] = calls2.read_text().split("\n") if calls2.exists() else []
+            out["warm_files"] = scen.read_outputs(wd, sc, pattern="out*.nc")
             o = lab.read_out(d / out["files"][0])
             out["restart_step"] = int(round((float(o["time"][-1])) / scen.DT)) if not sc["rev"] else None
     return out
@@ -168,6 +169,12 @@ def run(ctx: Ctx):
                 bad.append(f"warm call log differs at entry {i}: implementation {calls[i:i + 4] if i is not None else None}, model {expect[i:i + 4] if i is not None else None}")
             if sorted(closes) != ["forcing", "ibm", "output"]:
                 bad.append(f"close calls {closes}")
+            # a record stamped t shows the state valid at t: the records of the restarted run carry the times of their steps
+            from harness.props.c08 import abs_times
+            have = [t for f in g.get("warm_files", []) if "unreadable" not in f for t in abs_times(f)[0]]
+            expect_t = [float(sc["start"] + (r + n) * scen.DT) for n in range(1, nleft) if n % sc["period"] == 0]
+            if g["warm_status"] == "ok" and have != expect_t:
+                bad.append(f"record times of the restarted run {have}, the steps written are at {expect_t}")
             if bad:
                 ctx.violation("failing-input", "warm", dict(case, restart_step=r), dict(broken=bad[:4], theorem="Ladim.C19.call_log_warm"), tags=dict(first=bad[0][:24]))
 
